@@ -13,8 +13,12 @@ CLAIMED = {
  "C07": ("exploration", "4.C07", "2-5 simulated clients on shared keys, every interleaving decision at lock boundaries and file-system steps taken by the seeded scheduler; reads judged for wholeness, per-key histories checked with porcupine against a weak-register model, accounting/directory invariants at every step and at quiescence, deadlock = nothing runnable with a request open."),
  "C08": ("fault_enumeration", "4.C08", "For generated plans (pre-population + victim uploads/overwrites) the victim phase is run once to count its N scheduling steps and then once per step with the process killed there (all goroutines of the instance parked for ever), restart on the directory as is (same/other storage mode, same/smaller max_size), every key read on every path with size known and unknown, interrupted uploads repeated. Kill = process kill: completed writes are visible; no power-loss model."),
  "C09": ("exploration", "4.C09", "Directories produced by an independent writer (current/legacy flat/legacy two-level layouts, .v1 and cas.v2 mixed, duplicates, lost+found, .DS_Store) with simulator-owned access times; start-up with max_size above/at/below the total or below the largest file; survivors judged against an oldest-first replay model, later evictions against recency, every survivor read back byte-exactly."),
+ "C10": ("exploration", "4.C10", "FindMissingBlobs request lists of length 0..300 (around the internal batch of 20), duplicates, size-mismatched and empty digests, all partitions into local / backend-only / absent / oversize-in-backend, without a backend, with a harness proxy and with the real httpproxy; the scheduler permutes the completion order of the backend lookups and a second client uploads other keys meanwhile. Answer must be the request filtered to the absent digests, order and duplicates preserved."),
  "C11": ("exploration", "4.C11", "Valid ActionResults and one-invalid-field variants (sampled kinds, not exhaustive) uploaded via gRPC and HTTP (proto/JSON/zstd); rejected uploads must leave the key unchanged, hits are compared with the upload modulo the documented changes (worker, inlining, de-inlined bytes in the CAS), JSON and proto views must agree, whatever is stored must parse and validate."),
  "C12": ("fault_enumeration", "4.C12", "Front end with the real httpproxy over a simulated transport/object store (b1) or a harness cache.Proxy (b0); every operation may carry one backend fault (error, 404 with/without body, 5xx, disconnect or clean short stream at header/table/chunk byte offsets, missing/wrong size metadata, oversize, backend down); judged: read-through, write-through (decoded by the independent cas.v2 reader), no wrong hit, no poisoned local entry, no leaked response body/fd/goroutine/reservation. The real grpcproxy is not yet driven (stated in DESIGN.md)."),
+ "C15": ("exploration", "4.C15", "The same hash used as key in cas/, ac/ and raw/ (validation toggled per run) with all orders of writes, overwrites, failed stores and evictions against three independent model maps; instance-name mangling on/off over HTTP path prefix and gRPC instance_name with nested, ac/cas/blobs-containing and unicode instance names."),
+ "C16": ("exploration", "4.C16", "ByteStream.Write message scripts: all chunkings (one-byte, empty messages, finish_write on last / extra / absent), identity and zstd, blob present or absent beforehand, instance prefixes and trailing metadata, protocol violations (non-zero first offset, name change, too many/few bytes, unparsable name); the scheduler explores receive goroutine vs Put goroutine vs handler; QueryWriteStatus before and after."),
+ "C17": ("exploration", "4.C17", "One client with the background remover starved for scheduler-chosen stretches, hard limits max_size+{0..max/2}, all write paths; admission judged exactly against accounted + independently measured deletion backlog (bytes of files no longer indexed) + size; refusals must be 507/RESOURCE_EXHAUSTED, change nothing and succeed on retry after the remover caught up; reads keep being served; without the option no such refusal."),
  "C18": ("exploration", "4.C18", "Uploads of limit-1/limit/limit+1/far-above sizes through every write path under per-run random max_blob_size; refusals must be client errors that store nothing, the limit itself is accepted."),
 }
 
